@@ -1173,8 +1173,12 @@ fn boundary_cases(etype: &'static str) -> Vec<Case> {
         if !z {
             texts.push(format!("f:0:{},{},{}@s it:0@s v:0@s it:0 d:0@s", v(1), v(2), v(3)));
         } else {
-            // the known finding's witness
+            // zero-sized tracked elements copied out by a script: `for` and `get` over lists
+            // built by Rust and by the script (literal, `List.new` + push), then concatenated
             texts.push("f:0:0,0 it:0@s".into());
+            texts.push("f:0:0,0@s it:0@s v:0@s g:0:0@s g:0:1@s g:0:2@s it:0 d:0@s".into());
+            texts.push("n:0@s p:0:0@s p:0:0@s p:0:0 it:0@s c:1:0@s +:2:0:1@s it:2@s g:2:5@s d:0 it:1@s d:1@s it:2@s d:2".into());
+            texts.push("f:0:0,0,0@s +:1:0:0 it:1@s +:2:1:0@s it:2@s v:2 g:2:8@s".into());
         }
     }
     // indices that are in range only after a truncating cast (the script-side
@@ -1359,13 +1363,15 @@ fn via_of(mode: u64, i: usize) -> Via {
     }
 }
 
-/// KNOWN FINDING (known_findings.json, C15-zst-for-tokens): a script `for` over a
-/// list of zero-sized tracked elements drops one element more per iteration
-/// than it clones. It is reproduced by one boundary history; everywhere else
-/// the generators leave that one combination out so that the token count stays
-/// meaningful for the rest of the history.
-fn known_tk0_for(op: &Op) -> bool {
-    matches!(op, Op::ToVec(_) | Op::Iter(_))
+/// Formerly excluded (known finding C15-zst-for-tokens, repaired in the tree by
+/// `fix: a zero-sized registered type among the parameters …`: registered types
+/// are reference types whatever their size, so a script clone of a zero-sized
+/// value calls its clone function): a script `for` over a list of zero-sized
+/// tracked elements. Nothing is left out any more — the token balance of
+/// `for` / `get` over script-built and Rust-built `List[Tk0]` is checked like
+/// every other combination.
+fn known_tk0_for(_op: &Op) -> bool {
+    false
 }
 
 /// `None`: past the end; `Some(None)`: an index whose sequence is not expressible
